@@ -5868,7 +5868,7 @@ int32_t matrixSslEncodeClientHello(ssl_t *ssl, sslBuf_t *out,
 #  endif /* USE_STATELESS_SESSION_TICKETS       */
 
 #  ifdef USE_OCSP_RESPONSE
-        if (options->OCSPstapling)
+        if (options->OCSPstapling == 1) /* same test as where extLen was counted */
         {
             psTracePrintExtensionCreate(ssl, EXT_STATUS_REQUEST);
             ssl->extFlags.req_status_request = 1;
